@@ -6,7 +6,8 @@ FUNCTIONS = ['uxarray.grid.connectivity._replace_fill_values',
     'uxarray.io._mpas._parse_face_nodes@primal',
     'uxarray.io._mpas._parse_face_nodes@dual',
     'uxarray.grid.coordinates._set_desired_longitude_range',
-    'uxarray.grid.grid.Grid.to_polycollection']
+    'uxarray.grid.grid.Grid.to_polycollection',
+    'uxarray.grid.grid.Grid.copy']
 STANDINS = ["sharing", "explicit_spec"]
 ASSUMPTIONS = []
 EXPLANATION = ""
